@@ -96,7 +96,106 @@ def failure_injection(tier, seed):
     return run
 
 
+def mixed_code_data(tier, seed):
+    """C05 on text sections that MIX code and data blocks: code patches (straight-line, ending in a branched-to label, ending in a jump) and
+    data patches inserted at every offset -- the end included -- of a data block that lies between / before / after code blocks, and
+    whole deletions next to them; after apply(): closed, no zero-sized block outside the documented cases, serialisable"""
+    def run():
+        import logging
+        from gtirb_rewriting import RewritingContext
+        from gtirb_test_helpers import add_code_block, add_data_block, add_edge, add_proxy_block, add_symbol, add_text_section, create_test_module
+        from bounded import scen, validators as VAL
+        logging.getLogger("gtirb_rewriting").setLevel(logging.CRITICAL)
+        br = BResult()
+        patches = {"plain": "nop", "skip": "testl %eax, %eax\njz .Lskip\nnop\n.Lskip:", "jmp": "jmp after", "data": ".byte 7, 8", "lab-end": "nop\nPL:", "loop": ".Ltop:\ndecl %eax\njnz .Ltop"}
+        layouts = {"code|data|code": ("c", "d", "c"), "data|code": ("d", "c"), "code|data": ("c", "d"), "data|data|code": ("d", "d", "c")}
+        br.bound = "text sections mixing code and data blocks (4 layouts); 6 patches inserted at every offset (0..size) of every data block and at the end of every code block; whole deletion of each block combined with an insertion into its neighbour"
+        br.clauses = ["C05/mixed/closed", "C05/mixed/zero-sized-blocks-only-in-documented-cases", "C05/mixed/serialisable-and-round-trips", "C05/mixed/apply-does-not-raise"]
+        distinct = set()
+
+        def build(lay):
+            ir, m = create_test_module(gtirb.Module.FileFormat.ELF, gtirb.Module.ISA.X64)
+            _, bi = add_text_section(m, address=0x1000)
+            blocks = []
+            for i, k in enumerate(lay):
+                last = i == len(lay) - 1
+                b = add_data_block(bi, b"\x01\x02\x03\x04") if k == "d" else add_code_block(bi, b"\x90\xc3" if last else b"\x90\x90")
+                blocks.append(b)
+                add_symbol(m, "after" if (last and k == "c") else "s%d" % i, b)
+            for a, b in zip(blocks, blocks[1:]):
+                if isinstance(a, gtirb.CodeBlock) and isinstance(b, gtirb.CodeBlock):
+                    add_edge(ir.cfg, a, b, gtirb.EdgeType.Fallthrough)
+            for b in blocks:
+                if isinstance(b, gtirb.CodeBlock) and bytes(b.contents).endswith(b"\xc3"):
+                    add_edge(ir.cfg, b, add_proxy_block(m), gtirb.EdgeType.Return)
+            return ir, m, blocks
+        cases = []
+        for lname, lay in layouts.items():
+            for bi_, k in enumerate(lay):
+                offs = range(5) if k == "d" else (2,)
+                nxt_code = bi_ + 1 < len(lay) and lay[bi_ + 1] == "c"
+                for o in offs:
+                    for pn in patches:
+                        falls = pn in ("plain", "skip", "lab-end", "loop")
+                        at_end = o == (4 if k == "d" else 2)
+                        if falls and not (at_end and nxt_code):
+                            continue          # code that falls through must be followed by code (a program running into data is not a sensible input)
+                        if pn == "data" and k != "d":
+                            continue
+                        if pn == "jmp" and lay[-1] != "c":
+                            continue          # no code label to jump to
+                        cases.append((lname, [("ins", bi_, o, pn)]))
+                # whole deletion of this block + an insertion at the end / start of a neighbour
+                for nb in (bi_ - 1, bi_ + 1):
+                    if 0 <= nb < len(lay):
+                        after_nb = [x for j, x in enumerate(lay) if j > nb]          # what follows in the ORIGINAL layout (modifications are applied in address order)
+                        for pn in ("plain", "skip", "jmp"):
+                            end_ins = nb < bi_
+                            if pn != "jmp" and not (end_ins and after_nb[:1] == ["c"]):
+                                continue
+                            if pn == "jmp" and (lay[-1] != "c" or bi_ == len(lay) - 1):
+                                continue
+                            cases.append((lname, [("del", bi_, 0, None), ("ins", nb, (4 if lay[nb] == "d" else 2) if end_ins else 0, pn)]))
+        for lname, edits in cases:
+            ir, m, blocks = build(layouts[lname])
+            rc = RewritingContext(m, [])
+            for op, b, o, pn in edits:
+                if op == "ins":
+                    rc.insert_at(blocks[b], o, scen.mkpatch(patches[pn]))
+                else:
+                    rc.delete_at(blocks[b], 0, blocks[b].size)
+            br.cases += 1
+            distinct.add((lname, tuple(edits)))
+            desc = {"layout": lname, "edits": [[op, "block %d" % b, o, (patches[pn].splitlines() if pn else None)] for op, b, o, pn in edits]}
+            try:
+                rc.apply()
+            except Exception as ex:       # noqa
+                br.failures.append({"clause": "C05/mixed/apply-does-not-raise", "witness": desc, "detail": "%s: %s" % (type(ex).__name__, str(ex)[:100])})
+                continue
+            for clause, detail in VAL.closure_problems(ir, m):
+                br.failures.append({"clause": "C05/mixed/closed", "witness": desc, "detail": "%s: %s" % (clause, detail)})
+            deleted_whole = any(op == "del" for op, *_ in edits)
+            for b in m.byte_blocks:
+                if b.size == 0 and b.section.name == ".text" and not deleted_whole:
+                    br.failures.append({"clause": "C05/mixed/zero-sized-blocks-only-in-documented-cases", "witness": desc, "detail": "zero-sized %s left at %#x by an insertion" % (type(b).__name__, b.address)})
+            try:
+                buf = io.BytesIO()
+                ir.save_protobuf_file(buf)
+                buf.seek(0)
+                ir2 = gtirb.IR.load_protobuf_file(buf)
+                if VAL.V_canon(ir) != VAL.V_canon(ir2):
+                    br.failures.append({"clause": "C05/mixed/serialisable-and-round-trips", "witness": desc, "detail": "canonical dumps differ after save/load"})
+            except Exception as ex:       # noqa
+                br.failures.append({"clause": "C05/mixed/serialisable-and-round-trips", "witness": desc, "detail": "%s: %s" % (type(ex).__name__, str(ex)[:100])})
+            if len(br.samples) < 2:
+                br.samples.append(desc)
+        br.nontrivial = len(distinct)
+        return br
+    return run
+
+
 def jobs(tier="quick", seed=0):
+    yield Job("C05/mixed-code-data-bounded", mixed_code_data(tier, seed), kind="B", func="gtirb_rewriting.rewriting:RewritingContext.apply (code and data blocks mixed)")
     yield from kernels.jobs_for("C05", tier, seed)
     yield apply_bounded.job("C05", tier, seed)
     yield Job("C05/failure-injection-bounded", failure_injection(tier, seed), kind="B", func="gtirb_rewriting.rewriting:RewritingContext.apply (failure path)")
